@@ -8,7 +8,7 @@ import os
 import types
 
 DOM = {'exists_': ['yes', 'no'], 'openExcl': ['ok', 'err'], 'openTrunc': ['ok'], 'renameOver': ['ok'], 'unlink': ['ok', 'err'],
-       'utimeFailed': ['ok', 'err'], 'stat': ['err', 'normal', 'marked'], 'setnxL': ['one', 'zero'], 'del': ['one', 'zero'],
+       'utimeFailed': ['ok', 'err'], 'stat': ['err', 'normal', 'marked', 'expired'], 'setnxL': ['one', 'zero'], 'del': ['one', 'zero'],
        'get': ['nil', 'valL', 'valF'], 'setL': ['ok'], 'setF': ['ok'], 'getsetL': ['nil', 'valL', 'valF'],
        'dGet': ['nil', 'valL', 'valF'], 'dSetL': ['ok'], 'dSetF': ['ok'], 'dDel': ['ok', 'err']}
 OPS = ['get', 'release', 'is_locked', 'fail', 'is_failed']
@@ -95,7 +95,9 @@ def install_fs(script, lockname):
                 a_ = script.ask('stat')
                 if a_ == 'err':
                     raise FileNotFoundError(2, 'No such file', p)
-                return types.SimpleNamespace(st_mtime=(1 if a_ == 'marked' else NOW - 5.0), st_size=10)
+                # 'expired': an old time stamp that is not the failed mark (what the lock of a dead keep-alive worker looks like); the model's
+                # `sem` never gives this answer (age is C19's subject), but the branch is extracted and type-checked like every other
+                return types.SimpleNamespace(st_mtime=(1 if a_ == 'marked' else (NOW - 7200.0 if a_ == 'expired' else NOW - 5.0)), st_size=10)
             return os.stat(p, *a, **k)
 
         def rename(self, a, b):
